@@ -26,6 +26,8 @@ import DarkluaModel.Rules.NilDeclarationHeap2
 import DarkluaModel.Rules.ConvertIndexWhole
 import DarkluaModel.Rules.ComputeExpressionWhole
 import DarkluaModel.Rules.WholeRuleC08
+import DarkluaModel.Rules.AllocCondU
+import DarkluaModel.Rules.EvaluatorFloat
 /-!
 # C01 — default rules preserve program behaviour: property theorems
 
@@ -1042,5 +1044,107 @@ example : Rules.ConvertIndexToField.apply (gApi C08.toyN C08.toyE) indexC08Sampl
   have h2 : Rules.ConvertIndexToField.apply (c08Api C08.toyN C08.toyE) indexC08Sample =
       .mk [] (some (.ret [.field (.var "t") "ab"])) := by rfl
   exact ⟨h1.trans h2.symm, h2⟩
+
+/-! ### … with ALLOCATING conditions (`while not {} do`, `if {} then`) — stage 4 unified (`Sem.HeapU`)
+
+`{}` is "pure" and truthy for the evaluator, so the rules drop its evaluation; the dropped evaluation allocates a
+table, after which the two runs differ by garbage. `Rules/AtNU.lean` (`ReplA`: a statement behaves as its replacement
+started in the current state plus allocations; `replA_sound`: the generic `HeapU` leaf, the number system pinned by
+`CF` as above, `upto` for the exhausted budget) and `Rules/AllocCondU.lean` lift this. The evaluator is `gApiA N E`:
+`c08Api N E` restricted to `h8 ∧ totA` (`tot` plus function expressions and table constructors of allocation-only
+content; `totA_total`, `gApiA_total`). Stage 4 asks the oracle to be flat (`OracleFlat`; the harness oracle is). -/
+
+/-- `remove_unused_while`, real evaluator, allocating conditions included, guarded: EVERY program. -/
+theorem rule_refines_remove_unused_while_upto_alloc_C08_guarded {N : NumOps} {E : Evaluator.EvalOps N}
+    (A : C08.Agree N E) (b : Block) (ρ : ExtOracle N) (hρ : Sem.HeapU.OracleFlat ρ) (n : Nat) (externs : List String) :
+    runProgram ρ n externs b = .timeout ∨
+      runProgram ρ n externs (Rules.UnusedWhile.apply (gApiA N E) b) = runProgram ρ n externs b :=
+  Rules.UnusedWhile.apply_upto_alloc (gApiA_total A) b ρ hρ n externs
+
+/-- `remove_unused_while` as the driver runs it, on every program on which it agrees with that guarded rule. -/
+theorem rule_refines_remove_unused_while_upto_alloc_C08 {N : NumOps} {E : Evaluator.EvalOps N}
+    (A : C08.Agree N E) (b : Block)
+    (h : Rules.UnusedWhile.apply (gApiA N E) b = Rules.UnusedWhile.apply (c08Api N E) b)
+    (ρ : ExtOracle N) (hρ : Sem.HeapU.OracleFlat ρ) (n : Nat) (externs : List String) :
+    runProgram ρ n externs b = .timeout ∨
+      runProgram ρ n externs (Rules.UnusedWhile.apply (c08Api N E) b) = runProgram ρ n externs b := by
+  rw [← h]; exact rule_refines_remove_unused_while_upto_alloc_C08_guarded A b ρ hρ n externs
+
+/-- … at the oracle and the number system the harness runs: no oracle hypothesis left -/
+theorem rule_refines_remove_unused_while_upto_alloc_C08_driver
+    (A : C08.Agree floatOps Evaluator.floatEvalOps) (b : Block)
+    (h : Rules.UnusedWhile.apply (gApiA floatOps Evaluator.floatEvalOps) b =
+      Rules.UnusedWhile.apply (c08Api floatOps Evaluator.floatEvalOps) b) (n : Nat) (externs : List String) :
+    runProgram Shared.driverOracle n externs b = .timeout ∨
+      runProgram Shared.driverOracle n externs (Rules.UnusedWhile.apply (c08Api floatOps Evaluator.floatEvalOps) b) =
+        runProgram Shared.driverOracle n externs b :=
+  rule_refines_remove_unused_while_upto_alloc_C08 A b h _ Sem.HeapU.driverOracle_flat n externs
+
+/-- `while not {} do f() end; g()` -/
+def whileAllocSample : Block :=
+  .mk [.while_ (.un .not (.table [])) (.mk [.callStmt (.call (.var "f") none .tuple [])] none),
+       .callStmt (.call (.var "g") none .tuple [])] none
+
+-- non-vacuity: the loop with an allocating condition is removed; inside the allocation-tolerant `H`, outside the
+-- exact one (`gApi` keeps the loop)
+example : Rules.UnusedWhile.apply (gApiA C08.toyN C08.toyE) whileAllocSample =
+      Rules.UnusedWhile.apply (c08Api C08.toyN C08.toyE) whileAllocSample ∧
+    Rules.UnusedWhile.apply (c08Api C08.toyN C08.toyE) whileAllocSample =
+      .mk [.callStmt (.call (.var "g") none .tuple [])] none ∧
+    Rules.UnusedWhile.apply (gApi C08.toyN C08.toyE) whileAllocSample = whileAllocSample := by
+  have h1 : Rules.UnusedWhile.apply (gApiA C08.toyN C08.toyE) whileAllocSample =
+      .mk [.callStmt (.call (.var "g") none .tuple [])] none := by rfl
+  have h2 : Rules.UnusedWhile.apply (c08Api C08.toyN C08.toyE) whileAllocSample =
+      .mk [.callStmt (.call (.var "g") none .tuple [])] none := by rfl
+  have h3 : Rules.UnusedWhile.apply (gApi C08.toyN C08.toyE) whileAllocSample = whileAllocSample := by rfl
+  exact ⟨h1.trans h2.symm, h2, h3⟩
+
+/-- `remove_unused_if_branch`, real evaluator, guarded (`applyGA`: the leading conditions of an `if` statement that
+the allocation-tolerant evaluator decides without side effects are resolved up to their allocations, the rest of the
+rule runs with the exact evaluator): EVERY program. -/
+theorem rule_refines_remove_unused_if_branch_upto_alloc_C08_guarded {N : NumOps} {E : Evaluator.EvalOps N}
+    (A : C08.Agree N E) (b : Block) (ρ : ExtOracle N) (hρ : Sem.HeapU.OracleFlat ρ) (n : Nat) (externs : List String) :
+    runProgram ρ n externs b = .timeout ∨
+      runProgram ρ n externs (Rules.UnusedIfBranch.applyGA (gApiA N E) (gApi N E) b) = runProgram ρ n externs b :=
+  Rules.UnusedIfBranch.applyGA_upto (gApiA_total A) (gApi_total A) b ρ hρ n externs
+
+/-- `remove_unused_if_branch` as the driver runs it, on every program on which it agrees with that guarded rule. -/
+theorem rule_refines_remove_unused_if_branch_upto_alloc_C08 {N : NumOps} {E : Evaluator.EvalOps N}
+    (A : C08.Agree N E) (b : Block)
+    (h : Rules.UnusedIfBranch.applyGA (gApiA N E) (gApi N E) b = Rules.UnusedIfBranch.apply (c08Api N E) b)
+    (ρ : ExtOracle N) (hρ : Sem.HeapU.OracleFlat ρ) (n : Nat) (externs : List String) :
+    runProgram ρ n externs b = .timeout ∨
+      runProgram ρ n externs (Rules.UnusedIfBranch.apply (c08Api N E) b) = runProgram ρ n externs b := by
+  rw [← h]; exact rule_refines_remove_unused_if_branch_upto_alloc_C08_guarded A b ρ hρ n externs
+
+theorem rule_refines_remove_unused_if_branch_upto_alloc_C08_driver
+    (A : C08.Agree floatOps Evaluator.floatEvalOps) (b : Block)
+    (h : Rules.UnusedIfBranch.applyGA (gApiA floatOps Evaluator.floatEvalOps)
+        (gApi floatOps Evaluator.floatEvalOps) b =
+      Rules.UnusedIfBranch.apply (c08Api floatOps Evaluator.floatEvalOps) b) (n : Nat) (externs : List String) :
+    runProgram Shared.driverOracle n externs b = .timeout ∨
+      runProgram Shared.driverOracle n externs
+          (Rules.UnusedIfBranch.apply (c08Api floatOps Evaluator.floatEvalOps) b) =
+        runProgram Shared.driverOracle n externs b :=
+  rule_refines_remove_unused_if_branch_upto_alloc_C08 A b h _ Sem.HeapU.driverOracle_flat n externs
+
+/-- `if not {} then f() elseif {1} then g() else h() end` -/
+def ifAllocSample : Block :=
+  .mk [.ifs [(.un .not (.table []), .mk [.callStmt (.call (.var "f") none .tuple [])] none),
+             (.table [.pos (.num 1)], .mk [.callStmt (.call (.var "g") none .tuple [])] none)]
+        (some (.mk [.callStmt (.call (.var "h") none .tuple [])] none))] none
+
+-- non-vacuity: a false and then a true allocating condition; the statement becomes `do g() end`
+example : Rules.UnusedIfBranch.applyGA (gApiA C08.toyN C08.toyE) (gApi C08.toyN C08.toyE) ifAllocSample =
+      Rules.UnusedIfBranch.apply (c08Api C08.toyN C08.toyE) ifAllocSample ∧
+    Rules.UnusedIfBranch.apply (c08Api C08.toyN C08.toyE) ifAllocSample =
+      .mk [.doBlock (.mk [.callStmt (.call (.var "g") none .tuple [])] none)] none ∧
+    Rules.UnusedIfBranch.apply (gApi C08.toyN C08.toyE) ifAllocSample = ifAllocSample := by
+  have h1 : Rules.UnusedIfBranch.applyGA (gApiA C08.toyN C08.toyE) (gApi C08.toyN C08.toyE) ifAllocSample =
+      .mk [.doBlock (.mk [.callStmt (.call (.var "g") none .tuple [])] none)] none := by rfl
+  have h2 : Rules.UnusedIfBranch.apply (c08Api C08.toyN C08.toyE) ifAllocSample =
+      .mk [.doBlock (.mk [.callStmt (.call (.var "g") none .tuple [])] none)] none := by rfl
+  have h3 : Rules.UnusedIfBranch.apply (gApi C08.toyN C08.toyE) ifAllocSample = ifAllocSample := by rfl
+  exact ⟨h1.trans h2.symm, h2, h3⟩
 
 end DarkluaModel.C01
